@@ -113,7 +113,30 @@ def witness_mut_d3(theta, N, seed):
     return _mut(theta, N, seed, 3)
 
 
+def _slow(theta, N, seed, D):
+    """Run time depends on the task (every third seed takes ~12 ms longer): with parallel workers tasks finish out of
+    submission order, which must not show in what is recorded."""
+    import time
+
+    if int(seed) % 3 == 0:
+        time.sleep(0.012)
+    return _witness(theta, N, seed, D)
+
+
+def witness_slow_d1(theta, N, seed):
+    return _slow(theta, N, seed, 1)
+
+
+def witness_slow_d2(theta, N, seed):
+    return _slow(theta, N, seed, 2)
+
+
+def witness_slow_d3(theta, N, seed):
+    return _slow(theta, N, seed, 3)
+
+
 WITNESS = {
+    ("slow", 1): witness_slow_d1, ("slow", 2): witness_slow_d2, ("slow", 3): witness_slow_d3,
     ("mut", 1): witness_mut_d1, ("mut", 2): witness_mut_d2, ("mut", 3): witness_mut_d3,
     ("plain", 1): witness_d1, ("plain", 2): witness_d2, ("plain", 3): witness_d3,
     ("huge", 1): witness_huge_d1, ("huge", 2): witness_huge_d2, ("inf", 1): witness_inf_d1, ("f32", 1): witness_f32_d1,
